@@ -1,3 +1,4 @@
+import WS.Lemmas.ZCut
 import WS.Lemmas.SrcLaw
 import WS.Lemmas.ReaderRejects
 import WS.Lemmas.CutLogic
@@ -94,6 +95,50 @@ theorem reach_inv_nextReader (c : Conn) (h : ReachInv c) : ReachInv (nextReader 
 
 theorem reach_inv_read (c : Conn) (rid k : Nat) (hk : 0 < k) (h : ReachInv c) : ReachInv (mrRead c rid k).2 := by
   first | exact ReaderMore.mrRead_reachInv .. | (apply ReaderMore.mrRead_reachInv <;> assumption)
+
+open WS.Codec WS.ReaderDecodes WS.ReaderZ WS.CutLogic WS.ReaderMore WS.ZCut
+
+/-- cut_never_complete for COMPRESSED messages (finding F10 as a theorem): the transport ends (EOF,
+    error or timeout; alone or together with the last bytes) at ANY byte offset strictly inside a
+    compressed message (first frame RSV1, any fragmentation, control frames in between): whatever
+    compress/flate does with the raw bytes — whatever the sizes of its read requests, however early it
+    reports the end of the deflate stream (a final block long before the last frame), whatever the
+    request size of the drain that follows — the message is not reported complete: NextReader fails or
+    the decompressing reader (model of flateReadWrapper, `zReadToEnd`) fails -/
+theorem compressed_cut_never_complete (c : Conn) (hc : ReaderIdle c) (hi : CountInv c) (hn : c.r.nego = true)
+    (t : Nat) (ht : t = 1 ∨ t = 2) (f : PFrame) (more : List PFrame) (hs : ZShape t f more)
+    (cut : Nat) (hcut : cut < (encZ c.r.isServer f ++ encAll c.r.isServer more).length)
+    (hp : c.r.buf.pending = (encZ c.r.isServer f ++ encAll c.r.isServer more).take cut)
+    (hsz : (f.payload ++ dataPayload more).length < 2 ^ 62) (hlim : c.r.limit ≤ 0) (env : ZEnv)
+    (hreq : ∀ k ∈ env.reqs, 0 < k) (hdr : 0 < env.drainK) :
+    (∃ e c1, nextReader c = (.err e, c1)) ∨
+    (∃ c1 rid, nextReader c = (.msg t rid true, c1) ∧ ∃ raw e c2, zReadToEnd c1 rid env = ((raw, .failed e), c2)) := by
+  first | exact WS.ZCut.compressed_cut_never_complete .. | (apply WS.ZCut.compressed_cut_never_complete <;> assumption)
+
+/-- … and a compressed message that arrived whole is reported complete whenever the decompressor
+    accepts it, however early or late it reports the end of the deflate stream; what it was given is a
+    prefix of the concatenated payloads; the reader is idle again with the following bytes untouched -/
+theorem compressed_whole_complete (c : Conn) (hc : ReaderIdle c) (hn : c.r.nego = true)
+    (t : Nat) (ht : t = 1 ∨ t = 2) (f : PFrame) (more : List PFrame) (hs : ZShape t f more) (rest : Bytes)
+    (hp : c.r.buf.pending = encZ c.r.isServer f ++ encAll c.r.isServer more ++ rest)
+    (hend : c.r.buf.t.together = false ∨ rest ≠ [])
+    (hsz : (f.payload ++ dataPayload more).length < 2 ^ 62) (hlim : c.r.limit ≤ 0)
+    (reqs : List Nat) (drainK : Nat) (hreq : ∀ k ∈ reqs, 0 < k) (hdr : 0 < drainK) :
+    ∃ c1 rid, nextReader c = (.msg t rid true, c1) ∧
+      ∃ raw c2, zReadToEnd c1 rid ⟨reqs, true, drainK⟩ = ((raw, .complete), c2) ∧
+        raw <+: f.payload ++ dataPayload more ∧ ReaderIdle c2 ∧ c2.r.buf.pending = rest := by
+  first | exact WS.ZCut.compressed_whole_complete .. | (apply WS.ZCut.compressed_whole_complete <;> assumption)
+
+/-- completion of a compressed message implies that the raw message was read to its end, for every
+    behaviour of the decompressor: the message reader has returned io.EOF and is detached, or — on a
+    transport that reports io.EOF together with the last bytes — io.EOF is latched right after the
+    last byte of the final frame. (The first statement handed to the proof agent had only the first
+    alternative and was refuted with the instance `ZCut.complete_reads_to_end_counterexample`.) -/
+theorem complete_reads_to_end_or_latched (c : Conn) (rid : Nat) (hrid : c.r.msgReader = some rid)
+    (env : ZEnv) (raw : Bytes) (c' : Conn) (h : zReadToEnd c rid env = ((raw, .complete), c')) :
+    c'.r.msgReader = none ∨
+    (c.r.buf.t.together = true ∧ c'.r.readErr = some .eof ∧ c'.r.remaining ≤ 0 ∧ c'.r.final = true) := by
+  first | exact WS.ZCut.complete_reads_to_end_or_latched_partial .. | (apply WS.ZCut.complete_reads_to_end_or_latched_partial <;> assumption)
 
 /-! ### non-vacuity -/
 section NonVacuity
